@@ -36,6 +36,11 @@ use verif_harness::*;
 struct C10 {
     rt: tokio::runtime::Runtime,
     store: Arc<InMemoryStore>,
+    /// ONE multihasher over the store for the whole history (until `reset`), as bitswap keeps it
+    hasher: hook::VerifMultihasher<InMemoryStore>,
+    /// the headers stored now, by height - 1 (`None`: removed)
+    headers: Vec<Option<celestia_types::ExtendedHeader>>,
+    /// one generator (= one validator key) for the whole history
     generator: ExtendedHeaderGenerator,
 }
 
@@ -175,9 +180,12 @@ fn mutate(rng: &mut Rng, b: &[u8]) -> Vec<u8> {
 
 impl C10 {
     fn new() -> Self {
+        let store = Arc::new(InMemoryStore::new());
         C10 {
             rt: tokio::runtime::Builder::new_current_thread().enable_all().build().unwrap(),
-            store: Arc::new(InMemoryStore::new()),
+            hasher: hook::VerifMultihasher::new(store.clone()),
+            store,
+            headers: vec![],
             generator: ExtendedHeaderGenerator::new(),
         }
     }
@@ -343,6 +351,40 @@ impl C10 {
                 out.op(format!("container expected={} input={} {}", hx(&cid), hx(&m), oracle(0, &m)), "container/mutated-block", true);
             }
         }
+        // ---- histories on the SAME multihasher: the header at the top height is removed / replaced between two blocks of
+        // that height; the verdict must follow the header stored NOW
+        {
+            let (h, eds_a, _, _) = squares.last().unwrap();
+            let (h, w) = (*h, eds_a.square_width());
+            for interleave in [false, true] {
+                let (r, c) = (rng.below(w as u64) as u16, rng.below(w as u64) as u16);
+                let blk_a = block_bytes(sample_cid(r, c, h), sample_container(eds_a, r, c, AxisType::Row));
+                let row_a = block_bytes(row_cid(r, h), row_container(eds_a, r));
+                let other = block_bytes(sample_cid(0, 0, 1), sample_container(&squares[0].1, 0, 0, AxisType::Col));
+                out.op(hash_line(SAMPLE_ID_MULTIHASH_CODE, &blk_a), "history/block-at-top-height", true);
+                out.op(format!("unstore h={h}"), "history/unstore", true);
+                if interleave && h != 1 {
+                    out.op(hash_line(SAMPLE_ID_MULTIHASH_CODE, &other), "history/other-height-in-between", true);
+                }
+                out.op(hash_line(SAMPLE_ID_MULTIHASH_CODE, &blk_a), "history/same-block-after-unstore", true);
+                out.op(hash_line(ROW_ID_MULTIHASH_CODE, &row_a), "history/row-block-after-unstore", true);
+                // another square's header at the same height
+                let (eds_b, _) = d_common::gen_eds(rng, w as usize);
+                let dah_b = DataAvailabilityHeader::from_eds(&eds_b);
+                let raw_b: Vec<Vec<u8>> = eds_b.data_square().iter().map(|s| s.to_vec()).collect();
+                out.op(format!("header at={h} {} w={} data={}", roots_fields(&dah_b), w, hxl(&raw_b)), "history/restore-other-header", true);
+                out.op(hash_line(SAMPLE_ID_MULTIHASH_CODE, &blk_a), "history/old-block-after-replace", true);
+                let blk_b = block_bytes(sample_cid(r, c, h), sample_container(&eds_b, r, c, AxisType::Col));
+                out.op(hash_line(SAMPLE_ID_MULTIHASH_CODE, &blk_b), "history/new-block-after-replace", true);
+                out.op(hash_line(ROW_ID_MULTIHASH_CODE, &row_a), "history/old-row-after-replace", true);
+                // put the original header back for the second pass
+                out.op(format!("unstore h={h}"), "history/unstore", true);
+                let raw_a: Vec<Vec<u8>> = eds_a.data_square().iter().map(|s| s.to_vec()).collect();
+                let dah_a = DataAvailabilityHeader::from_eds(eds_a);
+                out.op(format!("header at={h} {} w={} data={}", roots_fields(&dah_a), w, hxl(&raw_a)), "history/restore-original-header", true);
+                out.op(hash_line(SAMPLE_ID_MULTIHASH_CODE, &blk_b), "history/replaced-block-after-restore", true);
+            }
+        }
         // random bytes as a block
         for _ in 0..per {
             let nb = rng.usize(0, 60);
@@ -381,6 +423,8 @@ impl Prop for C10 {
         match opname(line) {
             "reset" => {
                 self.store = Arc::new(InMemoryStore::new());
+                self.hasher = hook::VerifMultihasher::new(self.store.clone());
+                self.headers = vec![];
                 self.generator = ExtendedHeaderGenerator::new();
                 "ok".into()
             }
@@ -393,20 +437,56 @@ impl Prop for C10 {
                     Ok(eds) if DataAvailabilityHeader::from_eds(&eds) == dah => {}
                     _ => return "stale-square-on-line".into(),
                 }
-                let header = self.generator.next_with_dah(dah);
+                // `at=N`: (re)store at height N — the next height, or the top height after it was removed
+                let n = self.headers.len() as u64;
+                let at = arg_u64(line, "at").unwrap_or(n + 1);
+                let replacing = at == n && n >= 1 && self.headers[(n - 1) as usize].is_none();
+                if !(at == n + 1 || replacing) {
+                    return "bad-op".into();
+                }
+                let header = if at == 1 {
+                    if replacing {
+                        return "bad-op".into();
+                    }
+                    self.generator.next_with_dah(dah)
+                } else {
+                    let Some(prev) = &self.headers[(at - 2) as usize] else { return "bad-op".into() };
+                    self.generator.next_of_with_dah(prev, dah)
+                };
                 let h = header.height();
                 let store = self.store.clone();
-                match self.rt.block_on(async move { store.insert(header).await }) {
-                    Ok(()) => format!("ok h={h}"),
+                let hdr = header.clone();
+                match self.rt.block_on(async move { store.insert(hdr).await }) {
+                    Ok(()) => {
+                        if replacing {
+                            self.headers[(at - 1) as usize] = Some(header);
+                        } else {
+                            self.headers.push(Some(header));
+                        }
+                        format!("ok h={h}")
+                    }
                     Err(e) => format!("err {e}"),
+                }
+            }
+            "unstore" => {
+                let Some(h) = arg_u64(line, "h") else { return "bad-op".into() };
+                let store = self.store.clone();
+                match self.rt.block_on(async move { store.remove_height(h).await }) {
+                    Ok(()) => {
+                        if let Some(slot) = self.headers.get_mut((h as usize).wrapping_sub(1)) {
+                            *slot = None;
+                        }
+                        "ok".into()
+                    }
+                    Err(_) => "err".into(),
                 }
             }
             "hash" => {
                 let (Some(code), Some(input)) = (arg_u64(line, "code"), arg_hex(line, "input")) else {
                     return "bad-op".into();
                 };
-                let store = self.store.clone();
-                match self.rt.block_on(async move { hook::shwap_multihash(store, code, &input).await }) {
+                let hasher = &self.hasher;
+                match self.rt.block_on(async { hasher.hash(code, &input).await }) {
                     Ok(mh) => format!("ok {}", hx(&mh)),
                     Err((class, _msg)) => format!("err {class}"),
                 }
